@@ -336,6 +336,7 @@ class HomeKitConnection:
         if self.is_connected:
             return False
         self.closing = False
+        self.closed = False
         logger.debug("%s: Starting connector", self.name)
         self._start_connector()
         return True
